@@ -52,9 +52,12 @@ static void report(int opidx, const char *status, V::Variables &vs, V::Constrain
 {
     printf("r %d %s P", opidx, status);
     bool finite = true;
+    bool ok = strcmp(status, "ok") == 0;
     for (size_t i = 0; i < vs.size(); ++i) {
-        printf(" %a", vs[i]->finalPosition);
-        if (!std::isfinite(vs[i]->finalPosition)) finite = false;
+        // after an exception copyResult() has not run: report the solver's internal position() instead
+        double p = (ok || vs[i]->block == nullptr) ? vs[i]->finalPosition : vs[i]->position();
+        printf(" %a", p);
+        if (!std::isfinite(p)) finite = false;
     }
     printf(" B");
     std::map<void *, int> label;
